@@ -134,6 +134,14 @@ let run_ana (op : string) (args : sexp list) : string =
                 (match record_program fa p with
                  | (calls, Inl evs) -> Printf.sprintf "ok calls=%d %s" (int_of_nat calls) (String.concat " " (List.map event_text evs))
                  | (calls, Inr k) -> Printf.sprintf "err %d calls=%d" (int_of_nat k) (int_of_nat calls))
+            | "shape", [] ->
+                let leaf (ev : event) (st : unit) : unit * (string, int) sum =
+                  (st, Inl (match ev with
+                    | EvLiteral _ -> "l" | EvPronoun _ -> "p" | EvSimple _ -> "s" | EvCommon _ -> "c" | EvProper _ -> "n"
+                    | EvBinOp _ -> "b" | EvUnOp _ -> "u" | EvPoeticElem _ -> "e")) in
+                (match walk_program (fun a b -> "(" ^ a ^ "+" ^ b ^ ")") "0" leaf p () with
+                 | (_, Inl sh) -> "ok " ^ sh
+                 | (_, Inr k) -> "err " ^ string_of_int k)
             | "fold", [] ->
                 let outs = List.concat_map (fun b -> match b with
                   | BNonEmpty ss -> List.filter_map (fun s -> match s with SOutput e -> Some e | _ -> None) ss
